@@ -145,7 +145,9 @@ impl MemcStore {
                             value -= delta.delta;
                         }
                         record.value = Bytes::from(value.to_string());
-                        record.header = header;
+                        // counter keeps flags and time to live of the stored item,
+                        // only cas comes from the request
+                        record.header.cas = header.cas;
                         self.set(key, record).map(|result| DeltaResult {
                             cas: result.cas,
                             value,
